@@ -18,6 +18,7 @@ import Proofs.Lemmas.C19Round3
 import Proofs.Lemmas.C19Lex
 import Proofs.Lemmas.C19Store
 import Proofs.Lemmas.C19Clean
+import Proofs.Lemmas.C19Parse
 
 namespace C19
 open Storage.Query Analysis.Quote
@@ -602,5 +603,24 @@ theorem reach_of_clean_uploads (reqs : List (Bytes × Bytes × List FileIn))
     simp only [List.foldl_cons]
     exact ih (fun db' q' hq' => h db' q' (by simp [hq'])) _
       (Reach.upload db q.1 q.2.1 q.2.2 hdb (clean_upload_reads_clean _ _ _ (h db q (by simp))))
+
+
+/-! ### the front end's chain addToQuery → parseQueryString → SplitWords -/
+
+open Analysis.Parse in
+/-- **front_end_chain**: a non-empty word (other than the bare separators `|` and `vs`) added by the
+query builder to a query without `|` reaches the storage server intact: `parseQueryString` takes the
+quoted word as the prefix (its splitting points are outside the quoted region, whatever quotes,
+backslashes, blanks, tabs, `|` or `vs` the value holds), every storage query sent is a group of the
+old query preceded by it, and `SplitWords` on the server gives back exactly the original word followed
+by the words of that group. -/
+theorem front_end_chain (q add : Bytes) (ha : add ≠ []) (h1 : add ≠ wBar) (h2 : add ≠ wVs)
+    (hq : ∀ c ∈ q, c ≠ cBar) :
+    (sentQueries (addToQuery q add)).map splitWords =
+      (parseQueryString q).2.map fun g => add :: splitWords g := by
+  rw [sent_addToQuery q add ha h1 h2 hq, List.map_map]
+  apply List.map_congr_left
+  intro g _
+  exact splitWords_quote_cons add g ha
 
 end C19
